@@ -242,7 +242,7 @@ def config_jobs(props, quick=True):
             for t in ths:
                 for tk in toks:
                     jobs.append({'meas': meas, 'variant': variant, 'ths': [t], 'ops': ops, 'toks': [tk],
-                                 'n_jobs': [1, 2, 4], 'props': list(props)})
+                                 'n_jobs': [1, 3] if quick else [1, 2, 4], 'props': list(props)})
     return jobs
 
 
@@ -250,7 +250,7 @@ def config_layer(props, quick=True):
     from mcx.engine import Layer
     return Layer('config-cross', 'checks.configx:w_join_config', config_jobs(props, quick),
                  'every combination of threshold x operator x allow_empty x allow_missing x output attributes x '
-                 'prefixes x out_sim_score x n_jobs in {1,2,4} (show_progress on and off for n_jobs=1) x tokenizer (set / bag / padded and unpadded q-grams) for each of the six '
+                 'prefixes x out_sim_score x n_jobs in {1,3} (thorough: {1,2,4}) (show_progress on and off for n_jobs=1) x tokenizer (set / bag / padded and unpadded q-grams) for each of the six '
                  'joins on two layouts of feature-rich 10x10 tables (empty, blank, missing values as None / NaN, '
                  'repeated tokens, duplicate values, unsorted keys, key columns at different positions, repeated '
                  'index labels, attribute columns with missing values, longest record first); complete output '
@@ -401,11 +401,11 @@ def filter_config_layer(props, quick=True):
                    [('OVERLAP', s_, '>=') for s_ in (1, 2)]
         for variant in (0, 1):
             for c in range(0, len(cfgs), 3):
-                jobs.append({'filter': name, 'variant': variant, 'cfgs': cfgs[c:c + 3], 'n_jobs': [1, 2, 4],
+                jobs.append({'filter': name, 'variant': variant, 'cfgs': cfgs[c:c + 3], 'n_jobs': [1, 3] if quick else [1, 2, 4],
                              'props': list(props)})
     return Layer('filter-config-cross', 'checks.configx:w_filter_config', jobs,
                  'every combination of measure x threshold x allow_empty x allow_missing x output attributes x prefixes '
-                 'x n_jobs in {1,2,4} for filter_tables of Size / Prefix / Position / OverlapFilter on the two layouts '
+                 'x n_jobs in {1,3} (thorough: {1,2,4}) for filter_tables of Size / Prefix / Position / OverlapFilter on the two layouts '
                  'of the feature-rich tables, plus filter_candset on that very output; complete output compared with '
                  'the reference (qualifying pairs, missing, both-empty, no-common-token, header, projection, _id)',
                  min_nontrivial=1000, chunksize=1)
